@@ -26,7 +26,7 @@ NATIVE = ['UNIFORM', 'UNIFORM_ANTI', 'UNIFORM_HALTON2', 'UNIFORM_HALTON3', 'UNIF
           'UNIFORMSYM', 'UNIFORMSYM_HALTON5', 'NORMAL', 'NORMAL_ANTI', 'NORMAL_HALTON2',
           'NORMAL_MLHS_ANTI']
 DRAW_NAMES = ['xi', 'Xi', 'xi_10', 'xi_2', 'omega', 'EC', 'ec_car', 'B_rnd', 'a rnd', 'z1']
-USER_TYPES = ['MYGEN', 'mygen', 'GEN_B', 'T10', 'T2', 'ZZ']
+USER_TYPES = ['MYGEN', 'mygen', 'GEN_B', 'T10', 'T2', 'ZZ', 'normal', 'Uniform', 'Normal_Anti', 'uniform_halton2']
 
 
 def user_series(const, n, r):
